@@ -128,3 +128,33 @@ Lemma ex_construct :
   option_map (canon_object cfg_dof_fields) (construct 0%Z cfg_dof_methods 2 [ex_fsp; VInt 2; ex_ebcs])
   = Some (canon_object cfg_dof_fields (dof_object 4 2 ex_isBc ex_conns)).
 Proof. vm_compute. reflexivity. Qed.
+
+(* ------------------------------------------------------------------ the value-semantics guard (model/M_C14_IR.v alias_safe) *)
+(* every extracted function passes it ... *)
+Lemma alias_guard_holds :
+  forallb (fun d => alias_safe (snd d)) cfg_dof_methods = true /\ alias_safe cfg_asm_assemble_sparse_stiffness_matrix = true.
+Proof. split; vm_compute; reflexivity. Qed.
+
+(* ... and it is not vacuous: _make_hessian_coordinates with `colCoords = rowCoords` instead of `rowCoords.copy()` (in NumPy the two
+   names then denote ONE array and the row coordinates are overwritten by the column coordinates) is rejected, although the
+   value-semantics interpreter cannot tell the two versions apart (it returns the same pair for both on the worked example);
+   likewise __init__ with `self.isBc = isBc` moved in front of the BC loop *)
+Definition hc_without_copy : fundef :=
+  {| f_params := f_params cfg_dof_make_hessian_coordinates; f_defaults := f_defaults cfg_dof_make_hessian_coordinates;
+     f_body := firstn 4 (f_body cfg_dof_make_hessian_coordinates) ++ [SAssign [EName "colCoords"] (EName "rowCoords")]
+               ++ skipn 5 (f_body cfg_dof_make_hessian_coordinates) |}.
+Definition init_alias_early : fundef :=
+  {| f_params := f_params cfg_dof_init; f_defaults := f_defaults cfg_dof_init;
+     f_body := firstn 2 (f_body cfg_dof_init) ++ [nth 3 (f_body cfg_dof_init) (SReturn ENone); nth 2 (f_body cfg_dof_init) (SReturn ENone)]
+               ++ skipn 4 (f_body cfg_dof_init) |}.
+Definition replace_method (m : string) (fd : fundef) (ms : list (string * fundef)) : list (string * fundef) :=
+  map (fun d => if String.eqb (fst d) m then (m, fd) else d) ms.
+Lemma alias_guard_discriminates :
+  nth 4 (f_body cfg_dof_make_hessian_coordinates) (SReturn ENone)
+    = SAssign [EName "colCoords"] (ECall (EAttr (EName "rowCoords") "copy") [] [])
+  /\ alias_safe hc_without_copy = false
+  /\ option_map (canon_object cfg_dof_fields)
+       (construct 0%Z (replace_method "_make_hessian_coordinates" hc_without_copy cfg_dof_methods) 2 [ex_fsp; VInt 2; ex_ebcs])
+     = Some (canon_object cfg_dof_fields (dof_object 4 2 ex_isBc ex_conns))
+  /\ alias_safe init_alias_early = false.
+Proof. repeat split; vm_compute; reflexivity. Qed.
